@@ -131,12 +131,16 @@ CLAIMED = {
         "length = 0; accepted appends exactly one entry, refused changes nothing); content_ops_keep_timing and "
         "setItem_only_that_entry; isFull_spec; setMeter_spec. The implementation's float accounting is modelled IEEE-exactly "
         "(round-to-nearest-even over Q, validated against CPython on 83k operations) and compared with the exact bar in the "
+        "exact bar: bar_history_exact / float_refines_exact (C13Dyadic.lean, unbounded: in ANY meter count/2^u with length <= 1024, "
+        "under ANY history of placements of power-of-two values down to 2^40-th notes and removals, every double operation "
+        "of the bar is exact, every accept/refuse decision is the exact bar's and the float bar's state equals the exact "
+        "bar's - from round_exact: every m*2^k with |m| < 2^53 is a double, proved from the rounding function); in the "
         "kernel: float_agrees_on_dyadic_fills (6 meters x 8 power-of-two values, complete fills + first refusal) and "
         "float_counterexample (the 20th quintuplet sixteenth in 4/4 is refused) = known finding C13-float-exact-fill. Tie A: "
         "the source expressions of the accounting and the is_full tolerance; Tie B: float model == implementation bit for bit "
         "on all histories of depth <=3/4, every single/alternating fill-to-capacity, random histories up to 200 steps.",
-   note=TRUST + "Partial: the float bar is tied to the exact bar only on the kernel-evaluated histories and by the oracle; there is "
-        "no general theorem that IEEE addition is exact on dyadic values. Known finding C13-float-exact-fill (matcher: exact "
+   note=TRUST + "Partial: for values that are not powers of two (dotted values, tuplets) the float bar is tied to the exact bar "
+        "only on the kernel-evaluated histories and by the oracle - and there it genuinely differs (the finding). Known finding C13-float-exact-fill (matcher: exact "
         "total + 1/v == length and the implementation refused); an accepted over-fill is still a violation.",
    design="§4 C13"),
  "C11": dict(
